@@ -76,6 +76,10 @@ def run(chk):
     # a fully degenerate site: all 20 amino acids observed in one column (also 21 symbols, also with a gap) - the site still accepts
     # exactly the observed symbols
     from harness.gen import AA as _AA20
+    # 6 - 12 ungapped sequences with three or four residues per site in uneven proportions (a site is optional only if a sequence has a gap there)
+    for n_a in (6, 7, 9, 10, 12, 6, 7, 9, 10, 12, 7, 9):
+        cols_ = [[rng.choice("ACDE"[:rng.choice([3, 4])]) for _ in range(n_a)] for _ in range(rng.randint(3, 5))]
+        alignments.append(["".join(c_[i_] for c_ in cols_) for i_ in range(n_a)])
     # gaps written '.' (IMGT style) or mixed '-' / '.': both are gap symbols of the alignment
     alignments += [["CAS.F", "CASSF", "C.TSY"], ["AC.", "ADC", "A-C"], ["A.", "AC"]]
     alignments += [["C" + a + "F" for a in _AA20], ["C" + a + "F" for a in _AA20 + "X"] + ["C-F"], [a + "W" for a in _AA20[:19]] + ["-W"]]
@@ -217,6 +221,12 @@ def run(chk):
     for _ in range(30 if not thorough else 300):
         labels = [rng.choice(["a", "b", "c", "dd", "e"][:rng.randint(1, 5)]) for _ in range(rng.randint(1, 12))]
         mc = rng.choice([None, 1, 2, 3])
+        if _ % 10 == 9:
+            # more distinct labels than the 20 colours of the tableau palette (colours repeat; nothing that is frequent enough turns black)
+            nl = rng.randint(21, 30)
+            labels = [f"c{j_}" for j_ in range(nl)] * 2 + [f"c{rng.randrange(nl)}" for _i in range(5)] + ["rare"]
+            rng.shuffle(labels)
+            mc = rng.choice([None, 2])
         seed = rng.randrange(2 ** 31)
         for fn in ("hls", "tableau"):
             np.random.seed(seed)
